@@ -164,6 +164,7 @@ class P(Prop):
             self.fail("search", f"supercircuit-raised-{o}", f"supergates(construct_supercircuit=True) raised {o}", case)
             return
         superc, sgmap = r
+        self.super_compare(c, cj, superc, sgmap)
         full = superc.copy()
         for name, sg in sgmap.items():
             o2, _ = call(full.fill_blackbox, name, sg)
@@ -187,6 +188,42 @@ class P(Prop):
                 if v[o_] != w[o_]:
                     self.fail("search", "supercircuit-value", f"output {o_}: {v[o_]} vs {w[o_]} under {a}", case)
                     return
+
+    def super_compare(self, c, cj, superc, sgmap):
+        """the super-circuit and the instance map against the Lean model (CG/SuperCircuit.lean): same nodes, types, output
+        marks, edges and blackbox registry; same instance names with the same supergates.  The visiting order of the
+        supergates depends on id()-hashed sets and only permutes node/edge order, which canon() sorts away; when two
+        minimal supergates share a head the survivor depends on id() order and the comparison is skipped."""
+        drv = self.driver()
+        seed = self.rng.randint(0, 5)
+        with ordered(seed):
+            o, r = call(cg.tx.supergates, c, True)
+        case = {"c": cj, "super": True, "seed": seed}
+        a = drv.ask({"op": "supergates_algo", "c": cj, "seed": seed})
+        if a["outcome"] == "ok" and not a["heads_distinct"]:
+            self.stats.bump("super:dup-heads")
+            return
+        m = drv.ask({"op": "supergates_super", "c": cj, "seed": seed})
+        self.corr_cases += 1
+        if m["outcome"] != "ok" or o != "ok":
+            if (m["outcome"] if m["outcome"] != "ok" else "ok") != o:
+                self.fail("corr", "supercircuit-model", f"model: {m['outcome']}, implementation: {o}", case)
+            return
+        superc, sgmap = r
+        d = cdiff(canon(c_to_json(superc)), canon(m["super"]))
+        if d:
+            self.fail("corr", "supercircuit-model", "super-circuit differs from the model: " + d[:300], case)
+            return
+        mm = {e["name"]: canon(e["c"]) for e in m["map"]}
+        if set(mm) != set(sgmap):
+            self.fail("corr", "supercircuit-model", f"instance map differs: impl {sorted(sgmap)} model {sorted(mm)}", case)
+            return
+        for k, sg in sgmap.items():
+            d = cdiff(canon(c_to_json(sg)), mm[k])
+            if d:
+                self.fail("corr", "supercircuit-model", f"supergate {k} differs from the model: " + d[:300], case)
+                return
+        self.stats.bump("super:compared")
 
     def oracle_super_if_single(self, c):
         if len(c.outputs()) == 1:
